@@ -377,6 +377,21 @@ def check_reporters(case, acc, tmpdir):
             if not core.close(float(got), total, total):
                 V('json-aggregate-compounding/%s/%s' % (block, nm), '%s.%s compounds to %r, the %s curve\'s daily returns to %r'
                   % (block, nm, float(got), block, float(total)))
+        # ... period by period: each month / year carries the compounded returns of the observations DATED in it
+        by_m, by_y = {}, {}
+        for d_, r_ in zip(ds, rl_b):
+            d_ = pd.Timestamp(d_)
+            by_m[(d_.year, d_.month)] = by_m.get((d_.year, d_.month), 1.0) * (1.0 + r_)
+            by_y[d_.year] = by_y.get(d_.year, 1.0) * (1.0 + r_)
+        got_m = {(int(k_[0]), int(k_[1])): float(v_) for k_, v_ in b['monthly_agg_returns']}
+        got_y = {int(k_): float(v_) for k_, v_ in b['yearly_agg_returns']}
+        if set(got_m) != set(by_m) or any(abs(got_m[k_] - (by_m[k_] - 1.0)) > 1e-9 * (1.0 + abs(by_m[k_])) for k_ in by_m):
+            V('json-aggregate-periods/%s/monthly' % block, '%s.monthly_agg_returns %s; the observations dated in each month compound to %s'
+              % (block, sorted(got_m.items())[:4], sorted((k_, v_ - 1.0) for k_, v_ in by_m.items())[:4]))
+        if set(got_y) != set(by_y) or any(abs(got_y[k_] - (by_y[k_] - 1.0)) > 1e-9 * (1.0 + abs(by_y[k_])) for k_ in by_y):
+            V('json-aggregate-periods/%s/yearly' % block, '%s.yearly_agg_returns %s; the observations dated in each year compound to %s'
+              % (block, sorted(got_y.items())[:4], sorted((k_, v_ - 1.0) for k_, v_ in by_y.items())[:4]))
+        acc.count('C17:json_aggregate_periods_checked', len(by_m))
         # the chart-formatted copies carry the same periods and values (x 100)
         hc = {(int(y_), int(m_)): float(v_) for m_, y_, v_ in b['monthly_agg_returns_hc']}
         years = sorted({int(k_[0]) for k_, _ in b['monthly_agg_returns']})
@@ -496,6 +511,10 @@ def check_tearsheet_figure(case, acc):
     plt.show = lambda *a, **k: None
     try:
         with np.errstate(all='ignore'):
+            if n % 3 == 1:
+                # an earlier tearsheet of ANOTHER curve was drawn in this process and its figure is still open
+                TearsheetStatistics(strategy_equity=df_b, title='earlier', periods=periods).plot_results()
+                acc.count('C17:tearsheet_figures_drawn_after_an_earlier_one_left_open')
             ts_.plot_results()
         fig = plt.gcf()
         panel = [ax for ax in fig.axes if ax.get_title() == 'Equity Curve' and len(ax.texts) > 8]
